@@ -130,10 +130,8 @@ def run(ctx):
                         det = "reported=%s actual=%s" % (fmt(rep[0]), fmt(act[0]))
                 ctx.check("wellformed-gate", "RfcDraft13/frame-length-equals-payload", okf, "Ok only when the u32 LE at buf[8..12] equals len(buf) - 12",
                           "frame length check missing or altered (%s)" % det, fn.loc(bb))
-                okv = any(r[0] == "NotPred" and r[1] == "is_some" and is_call(r[2], "get_supported_version") or
-                          (r[0] == "Pred" and r[1] == "is_some" and is_call(r[2], "get_supported_version")) for r in rels)
-                okv = any(r[0] == "Pred" and r[1] == "is_some" and is_call(r[2], "get_supported_version") for r in rels) or any(
-                    r[0] == "NotPred" and r[1] == "is_some" and False for r in rels)
+                from lib import fact_is_present
+                okv = fact_is_present(rels, lambda x: is_call(x, "get_supported_version"))
                 # `version.is_none()` false edge is NotPred(is_none) -> mapped to Pred(is_some)
                 ctx.check("wellformed-gate", "RfcDraft13/supported-version-found", okv, "Ok only when get_supported_version() is Some",
                           "Ok can be returned although no supported version was found", fn.loc(bb))
